@@ -589,7 +589,8 @@ func (w FederatingWrappedCallbacks) accept(c context.Context, a vocab.ActivitySt
 			}
 			followId, err := GetId(follow)
 			if err != nil {
-				return err
+				// Without an id it is not a Follow this server stored.
+				continue
 			}
 			// Ensure that we are one of the actors on the Follow.
 			actors := follow.GetActivityStreamsActor()
